@@ -120,6 +120,16 @@ def run(ctx):
             cases.append({"src": "\n".join([nth, where, "replace all %s with %s" % (body, " ".join(show3(i) for i in its))]), "texts": ["ab cd ab", "ab ab ab", "a a\na", "abab", "x"]})
             cases.append({"src": "\n".join([nth, where, "find all %s" % body]), "texts": ["ab cd ab", "ab ab ab", "a a\na", "abab", "x"]})
             meta.append(its)
+    # items and captured texts that look like formatting directives: a replacement is the items' texts one after the other, never a format applied to them
+    for body in ("(digit) = n", "(at least 1 (not ' ')) = n", "'%' (any = n)"):
+        for its in ([("str", "100%"), ("cap", "n")], [("cap", "n"), ("str", "%s"), ("cap", "n"), ("str", "%d"), ("builtin", "value")], [("str", "%"), ("str", "%%"), ("builtin", "matchNumber"), ("str", "%!v")],
+                    [("builtin", "value"), ("str", "%"), ("builtin", "value")], [("str", "%[1]s%v"), ("cap", "n"), ("str", "\\n%")]):
+            def show4(it):
+                return genprog.q(it[1]) if it[0] == "str" else it[1]
+            pt = ["a7 8", "15%", "%d 3 %s", "9", "%s%s %v", "100%% %", "%7"]
+            cases.append({"src": "replace all %s with %s" % (body, " ".join(show4(i) for i in its)), "texts": pt})
+            cases.append({"src": "find all %s" % body, "texts": pt})
+            meta.append(its)
     gres, dis, stats = corr_core.run_core(cases, shards=12, spec=False)
     report_core_disagreements(ctx, cases, dis, in_scope=in_scope_core, known=known_core)
     ev = 0
